@@ -762,6 +762,24 @@ func ioCopy(fr *frame, a []value) value {
 			return tuple{sh.node.size, iface{}}
 		}
 	}
+	if st, ok := nativeOf[*md5state](dst); ok {
+		if _, isCR := nativeOf[*creader](src); !isCR {
+			if _, isFH := nativeOf[*fhandle](src); !isFH {
+				if sr, ok := src.(iface); ok && sr.t != nil {
+					return i.copyReaderToMD5(st, sr)
+				}
+			}
+		}
+	}
+	if dh, ok := nativeOf[*fhandle](dst); ok {
+		if _, isCR := nativeOf[*creader](src); !isCR {
+			if _, isFH := nativeOf[*fhandle](src); !isFH {
+				if sr, ok := src.(iface); ok && sr.t != nil {
+					return i.copyReaderToFile(dh, dst, sr)
+				}
+			}
+		}
+	}
 	if _, ok := nativeOf[*creader](src); !ok {
 		if _, ok := nativeOf[*fhandle](src); !ok {
 			if _, ok := nativeOf[*fhandle](dst); !ok {
